@@ -455,7 +455,7 @@ def parse_comp_filter(el: ET.Element, cls):
     for subel in el:
         if subel.tag == "{urn:ietf:params:xml:ns:caldav}is-not-defined":
             comp_filter.is_not_defined = True
-        if subel.tag == "{urn:ietf:params:xml:ns:caldav}comp-filter":
+        elif subel.tag == "{urn:ietf:params:xml:ns:caldav}comp-filter":
             parse_comp_filter(subel, comp_filter.filter_subcomponent)
         elif subel.tag == "{urn:ietf:params:xml:ns:caldav}prop-filter":
             parse_prop_filter(subel, comp_filter.filter_property)
